@@ -20,7 +20,7 @@
 
 import calendar
 import datetime
-from math import radians, cos, sin, asin, sqrt, acos, degrees
+from math import radians, cos, sin, asin, sqrt, acos, degrees, isinf
 
 from pymeeus.base import TOL, get_ordinal_suffix, iint
 from pymeeus.Angle import Angle
@@ -615,6 +615,7 @@ class Epoch(object):
         :returns: Month as integer in the [1, 12] range, or as a long name.
         :rtype: int, str
         :raises: ValueError if input month value is invalid.
+        :raises: TypeError if input values are of wrong type.
 
         >>> Epoch.get_month(4.0)
         4
@@ -666,6 +667,8 @@ class Epoch(object):
             "December",
         ]
 
+        if not isinstance(as_string, bool):
+            raise TypeError("Invalid input type")
         if isinstance(month, (int, float)):
             month = int(month)  # Truncate if it has decimals
             if month >= 1 and month <= 12:
@@ -693,6 +696,8 @@ class Epoch(object):
                         return month
                 else:
                     raise ValueError("Invalid value for the input month")
+        else:
+            raise TypeError("Invalid input type")
 
     @staticmethod
     def is_leap(year):
@@ -1321,6 +1326,7 @@ class Epoch(object):
 
         :returns: Year, month, day in a tuple
         :rtype: tuple
+        :raises: ValueError if the internal JDE value is out of range.
 
         >>> e = Epoch(2436116.31)
         >>> y, m, d = e.get_date()
@@ -1341,6 +1347,8 @@ class Epoch(object):
         """
 
         jd = self._jde + 0.5
+        if isinf(jd):
+            raise ValueError("Invalid JDE value")
         z = iint(jd)
         f = jd % 1
         if z < 2299161:
@@ -1357,10 +1365,14 @@ class Epoch(object):
             month = e - 1
         elif e == 14 or e == 15:
             month = e - 13
+        else:
+            raise ValueError("Invalid JDE value")
         if month > 2:
             year = c - 4716
         elif month == 1 or month == 2:
             year = c - 4715
+        else:
+            raise ValueError("Invalid JDE value")
         year = int(year)
         month = int(month)
 
@@ -1488,6 +1500,7 @@ class Epoch(object):
 
         :returns: DeltaT, in seconds
         :rtype: float
+        :raises: TypeError if input values are of wrong type.
 
         >>> round(Epoch.tt2ut(1642, 1), 1)
         62.1
@@ -1517,6 +1530,9 @@ class Epoch(object):
         69.3
         """
 
+        if not (isinstance(year, (int, float))
+                and isinstance(month, (int, float))):
+            raise TypeError("Invalid input types")
         y = year + (month - 0.5) / 12.0
         if year < -500:
             u = (year - 1820.0) / 100.0
